@@ -204,7 +204,7 @@ func c01NewWorld(t *testing.T, tr *Trace, rng *Rng) *c01World {
 	for _, a := range w.apps {
 		_ = w.app.Rewardskeeper.WhitelistAppIDVault(w.ctx, a)
 		// second-generation liquidation with Dutch auctions enabled for the app
-		d := liq2types.DutchAuctionParam{Premium: c01Dec("0.1"), Discount: c01Dec("0.1"), DecrementFactor: sdk.NewInt(1)}
+		d := liq2types.DutchAuctionParam{Premium: c01Dec("1.2"), Discount: c01Dec("0.7"), DecrementFactor: sdk.NewInt(1)}
 		e := liq2types.EnglishAuctionParam{DecrementFactor: sdk.NewInt(1)}
 		w.app.NewliqKeeper.SetLiquidationWhiteListing(w.ctx, liq2types.LiquidationWhiteListing{AppId: a, Initiator: true, IsDutchActivated: true,
 			DutchAuctionParam: &d, IsEnglishActivated: false, EnglishAuctionParam: &e, KeeeperIncentive: c01Dec("0.1")})
@@ -446,6 +446,39 @@ func (w *c01World) crBoundaryIn(p *c01Product, out sdk.Int) sdk.Int {
 	return res
 }
 
+// crBoundaryOut solves the total debt for ratio == minCr at the given collateral (the caller subtracts what is owed already).
+func (w *c01World) crBoundaryOut(p *c01Product, in sdk.Int) sdk.Int {
+	ep, _ := w.app.AssetKeeper.GetPairsVault(w.ctx, p.id)
+	tin, f1 := w.app.MarketKeeper.GetTwa(w.ctx, p.assetIn)
+	tout, f2 := w.app.MarketKeeper.GetTwa(w.ctx, p.assetOut)
+	if !f1 || !f2 || tout.Twa == 0 || !ep.MinCr.IsPositive() {
+		return sdk.NewInt(1)
+	}
+	pout := tout.Twa
+	if !ep.AssetOutOraclePrice {
+		pout = ep.AssetOutPrice
+	}
+	if pout == 0 {
+		return sdk.NewInt(1)
+	}
+	// out = in * pin * decOut / (minCr * pout * decIn)
+	num := sdk.NewDecFromInt(in.Mul(sdk.NewIntFromUint64(tin.Twa)).Mul(w.decOf[p.assetOut]))
+	den := ep.MinCr.MulInt(sdk.NewIntFromUint64(pout)).MulInt(w.decOf[p.assetIn])
+	var res sdk.Int
+	if panicked, _ := try(func() { res = num.Quo(den).TruncateInt() }); panicked {
+		return sdk.NewInt(1)
+	}
+	return res
+}
+
+// pendingInterest is what the message about to be delivered will book on the vault before its own checks.
+func (w *c01World) pendingInterest(app, prod, vaultID uint64) sdk.Int {
+	if i, ok := sdk.NewIntFromString(w.iota(app, prod, vaultID)); ok {
+		return i
+	}
+	return sdk.ZeroInt()
+}
+
 func (w *c01World) fund(user sdk.AccAddress, asset uint64, amt sdk.Int) {
 	coins := sdk.NewCoins(sdk.NewCoin(w.denomOf[asset], amt))
 	if err := w.app.BankKeeper.MintCoins(w.ctx, "mint", coins); err != nil {
@@ -549,6 +582,10 @@ func (w *c01World) oneOp() {
 			w.tr.Count("op:esm")
 		}
 	}
+	if len(w.openAuctions()) > 0 && r.Chance(20) {
+		w.bidOp(user)
+		return
+	}
 	switch c := r.Intn(100); {
 	case c < 6: // price move / deactivation
 		a := w.assetIDs[r.Intn(len(w.assetIDs))]
@@ -645,45 +682,31 @@ func (w *c01World) oneOp() {
 			ok := w.deliver(&vaulttypes.MsgWithdrawStableMintRequest{From: user.String(), AppId: app, ExtendedPairVaultId: p.id, Amount: amt, StableVaultId: sid})
 			emit("stableWithdraw", un, u(app), u(p.id), u(sid), amt.String(), env, ok)
 		}
-	case c < 56 && r.Chance(50) && len(w.openAuctions()) > 0:
-		// a bidder buys out the auction of a seized vault with one large market bid: the auction closes and settles
-		auc := w.openAuctions()
-		a := auc[r.Intn(len(auc))]
-		var lockedOrig uint64
-		for _, l := range w.app.NewliqKeeper.GetLockedVaults(w.ctx) {
-			if l.LockedVaultId == a.LockedVaultId && l.AppId == a.AppId {
-				lockedOrig = l.OriginalVaultId
-			}
-		}
-		bid := a.DebtToken.Amount.MulRaw(3)
-		debtAsset := w.assetByDenom(a.DebtToken.Denom)
-		bal := w.app.BankKeeper.GetBalance(w.ctx, user, a.DebtToken.Denom).Amount
-		if bal.LT(bid) {
-			w.fund(user, debtAsset, bid.Sub(bal))
-			w.state()
-		}
-		okk := w.deliver(&auctionsV2types.MsgPlaceMarketBidRequest{AuctionId: a.AuctionId, Bidder: user.String(), Amount: sdk.NewCoin(a.DebtToken.Denom, bid)})
-		_, err := w.app.NewaucKeeper.GetAuction(w.ctx, a.AuctionId)
-		closed := okk && err != nil
-		w.tr.Count(fmt.Sprintf("op:marketbid:accepted=%v:closed=%v", okk, closed))
-		if closed && lockedOrig != 0 {
-			w.tr.Line("vault.msg", "settle", u(lockedOrig), "-", "-", "-", "-", "esm=0;past=0;brk=0;pin=-;pout=-;iota=0", "ok")
-			w.stateKind("vault.state.settle")
-		} else {
-			// a partial fill moves only auction-module and bidder balances; re-synchronise through a settlement-style line
-			w.tr.Line("vault.msg", "donate", "99", "0", "0", "-", "-", "esm=0;past=0;brk=0;pin=-;pout=-;iota=0", "err")
-			w.stateKind("vault.state.bid")
-		}
-	case c < 50 && r.Chance(35):
+	case c < 56 && r.Chance(45):
 		// anyone asks the second-generation liquidation module to liquidate a vault (after a collateral price crash, often)
 		v, ok := pickVault()
 		if !ok {
 			return
 		}
 		vp := w.productByID(v.ExtendedPairVaultID)
+		restore := uint64(0)
 		if r.Chance(60) {
 			twa, _ := w.app.MarketKeeper.GetTwa(w.ctx, vp.assetIn)
 			np := twa.Twa * uint64(20+r.Intn(70)) / 100
+			if r.Chance(80) {
+				restore = twa.Twa
+			}
+			if r.Chance(70) {
+				// just below the liquidation point: the auction can then be filled by several partial bids
+				owed := v.AmountOut.Add(v.InterestAccumulated).Add(v.ClosingFeeAccumulated)
+				need := w.crBoundaryIn(vp, owed)
+				if v.AmountIn.IsPositive() && need.IsPositive() && need.IsInt64() && v.AmountIn.IsInt64() {
+					f := float64(750+r.Intn(245)) / 1000
+					np = uint64(float64(twa.Twa) * float64(need.Int64()) / float64(v.AmountIn.Int64()) * f)
+					w.tr.Count("op:liquidate:price-just-below")
+					restore = twa.Twa // a dip: the price comes back afterwards, other vaults are not dragged under water
+				}
+			}
 			if np == 0 {
 				np = 1
 			}
@@ -692,7 +715,15 @@ func (w *c01World) oneOp() {
 		env := w.env(v.AppId, v.ExtendedPairVaultID, v.Id, true)
 		okk := w.deliver(&liq2types.MsgLiquidateInternalKeeperRequest{From: user.String(), LiqType: 0, Id: v.Id})
 		_, still := w.app.VaultKeeper.GetVault(w.ctx, v.Id)
+		if restore != 0 {
+			w.setPrice(vp.assetIn, restore, true)
+		}
 		w.tr.Count(fmt.Sprintf("op:liquidate:accepted=%v:seized=%v", okk, !still))
+		if okk && !still && os.Getenv("VERIF_DEBUG") != "" {
+			owed := v.AmountOut.Add(v.InterestAccumulated).Add(v.ClosingFeeAccumulated)
+			tw, _ := w.app.MarketKeeper.GetTwa(w.ctx, vp.assetIn)
+			fmt.Fprintf(os.Stderr, "SEIZED vault=%d in=%s owed=%s needAtRestoredPrice=%s price=%d restore=%d\n", v.Id, v.AmountIn, owed, w.crBoundaryIn(vp, owed), tw.Twa, restore)
+		}
 		if okk && !still {
 			debt := sdk.ZeroInt()
 			for _, l := range w.app.NewliqKeeper.GetLockedVaults(w.ctx) {
@@ -741,6 +772,9 @@ func (w *c01World) oneOp() {
 		case k < 30:
 			// withdraw: aim at the CR boundary
 			total := v.AmountOut.Add(v.InterestAccumulated).Add(v.ClosingFeeAccumulated)
+			if r.Chance(60) {
+				total = total.Add(w.pendingInterest(vapp, prod, v.Id))
+			}
 			need := w.crBoundaryIn(vp, total)
 			amt := v.AmountIn.Sub(need).AddRaw(int64(r.Intn(5) - 2))
 			if r.Chance(40) || !amt.IsPositive() {
@@ -753,6 +787,29 @@ func (w *c01World) oneOp() {
 			if r.Chance(25) {
 				st, _ := w.app.VaultKeeper.CheckAppExtendedPairVaultMapping(w.ctx, v.AppId, v.ExtendedPairVaultID)
 				amt = ep.DebtCeiling.Sub(st).AddRaw(int64(r.Intn(3) - 1))
+			} else if r.Chance(50) {
+				// aim at the collateralization boundary: once with the interest this very message books, once without it
+				owed := v.AmountOut.Add(v.InterestAccumulated).Add(v.ClosingFeeAccumulated)
+				pend := w.pendingInterest(vapp, prod, v.Id)
+				room := w.crBoundaryOut(vp, v.AmountIn).Sub(owed)
+				switch r.Intn(3) {
+				case 0:
+					room = room.Sub(pend)
+					w.tr.Count("draw:boundary:post-accrual")
+				case 1:
+					w.tr.Count("draw:boundary:pre-accrual")
+				default:
+					if pend.IsPositive() && pend.IsInt64() {
+						room = room.Sub(sdk.NewInt(int64(r.Intn(int(minI64(pend.Int64(), 1<<30)) + 1))))
+					}
+					w.tr.Count("draw:boundary:inside-accrual-band")
+				}
+				if pend.IsPositive() {
+					w.tr.Count("draw:boundary:pending-interest>0")
+				}
+				if b := room.AddRaw(int64(r.Intn(5) - 2)); b.IsPositive() {
+					amt = b
+				}
 			}
 			okk := w.deliver(&vaulttypes.MsgDrawRequest{From: from.String(), AppId: vapp, ExtendedPairVaultId: prod, UserVaultId: v.Id, Amount: amt})
 			emit("draw", fn, u(vapp), u(prod), u(v.Id), amt.String(), env, okk)
@@ -799,7 +856,67 @@ func (w *c01World) oneOp() {
 	}
 }
 
+// bidOp: a bidder bids on the Dutch auction of a seized vault — a full bid (closes and settles), a partial fill (the auction
+// stays open with less collateral and less debt; a later bid settles it) or a bid around the asked amount.
+func (w *c01World) bidOp(user sdk.AccAddress) {
+	r := w.rng
+	// a bidder buys out the auction of a seized vault with one large market bid: the auction closes and settles
+	auc := w.openAuctions()
+	a := auc[r.Intn(len(auc))]
+	var lockedOrig uint64
+	for _, l := range w.app.NewliqKeeper.GetLockedVaults(w.ctx) {
+		if l.LockedVaultId == a.LockedVaultId && l.AppId == a.AppId {
+			lockedOrig = l.OriginalVaultId
+		}
+	}
+	bid := a.DebtToken.Amount.MulRaw(3)
+	kind := r.Intn(4)
+	switch kind {
+	case 0: // partial fill: leaves the auction open with less collateral and less debt
+		bid = a.DebtToken.Amount.QuoRaw(int64(2 + r.Intn(9)))
+	case 1: // exactly what is still asked for, give or take one
+		bid = a.DebtToken.Amount.AddRaw(int64(r.Intn(3) - 1))
+	}
+	if !bid.IsPositive() {
+		bid = sdk.NewInt(1)
+	}
+	debtAsset := w.assetByDenom(a.DebtToken.Denom)
+	bal := w.app.BankKeeper.GetBalance(w.ctx, user, a.DebtToken.Denom).Amount
+	if bal.LT(bid) {
+		w.fund(user, debtAsset, bid.Sub(bal))
+		w.state()
+	}
+	if os.Getenv("VERIF_DEBUG") != "" {
+		dp := sdk.NewDec(1000000)
+		if tw, f := w.app.MarketKeeper.GetTwa(w.ctx, a.DebtAssetId); f && a.DebtToken.Denom != "ucmst" {
+			dp = sdk.NewDec(int64(tw.Twa))
+		}
+		_, q, _ := w.app.VaultKeeper.GetAmountOfOtherToken(w.ctx, a.DebtAssetId, dp, bid, a.CollateralAssetId, a.CollateralTokenAuctionPrice)
+		fmt.Fprintf(os.Stderr, "collForBid=%s ", q)
+		fmt.Fprintf(os.Stderr, "BID kind=%d bid=%s debt=%s coll=%s aprice=%s bonus=%s\n", kind, bid, a.DebtToken, a.CollateralToken, a.CollateralTokenAuctionPrice, a.BonusAmount)
+	}
+	okk := w.deliver(&auctionsV2types.MsgPlaceMarketBidRequest{AuctionId: a.AuctionId, Bidder: user.String(), Amount: sdk.NewCoin(a.DebtToken.Denom, bid)})
+	_, err := w.app.NewaucKeeper.GetAuction(w.ctx, a.AuctionId)
+	closed := okk && err != nil
+	w.tr.Count(fmt.Sprintf("op:marketbid:kind=%d:accepted=%v:closed=%v", kind, okk, closed))
+	if closed && lockedOrig != 0 {
+		w.tr.Line("vault.msg", "settle", u(lockedOrig), "-", "-", "-", "-", "esm=0;past=0;brk=0;pin=-;pout=-;iota=0", "ok")
+		w.stateKind("vault.state.settle")
+	} else {
+		// a partial fill moves only auction-module and bidder balances; re-synchronise through a settlement-style line
+		w.tr.Line("vault.msg", "donate", "99", "0", "0", "-", "-", "esm=0;past=0;brk=0;pin=-;pout=-;iota=0", "err")
+		w.stateKind("vault.state.bid")
+	}
+}
+
 var _ = esmtypes.ModuleName
+
+func minI64(a, b int64) int64 {
+	if a < b {
+		return a
+	}
+	return b
+}
 
 // TestC01 drives the real vault message server (through the message router) with generated multi-user histories and
 // dumps the ledger projection after every message; the Lean driver replays the messages on Model/Vault.lean, compares
